@@ -1,5 +1,580 @@
-//! (stub)
+//! C01 — generated hashes are byte-identical to ssdeep/libfuzzy 2.14.1.
+//!
+//! E-LOCKSTEP: the real `Generator` and the declarative CTPH reference advance
+//! together over exhaustively enumerated word / byte sequences and are compared
+//! after every step (so every prefix is a checked case).  Every completed
+//! sequence is additionally fed to a fresh generator as ONE slice.
+
 use crate::common::*;
-use serde_json::Value;
-pub fn replay(_c: &Value) -> Result<(), String> { Err("not implemented".into()) }
-pub fn run(_ctx: &Ctx) -> Report { Report::new("model_checking") }
+use crate::corpus;
+use crate::gen_util::*;
+use refmodel::ctph::Ctph;
+use serde_json::{json, Value};
+use ssdeep::Generator;
+
+/// A replayable case: start from `hook(zp)`, feed `chunks` (word repeated
+/// `count` times through `form`), comparing after every word.
+#[derive(Clone, Debug)]
+pub struct Chunk {
+    pub word: Vec<u8>,
+    pub count: usize,
+    pub form: Form,
+}
+
+pub fn form_name(f: Form) -> &'static str {
+    match f {
+        Form::Slice => "Slice",
+        Form::Iter => "Iter",
+        Form::Byte => "Byte",
+        Form::AddSlice => "AddSlice",
+        Form::AddByte => "AddByte",
+    }
+}
+pub fn form_from(s: &str) -> Option<Form> {
+    FORMS.iter().copied().find(|f| form_name(*f) == s)
+}
+
+pub fn case_json(zp: u64, chunks: &[Chunk], hint: Option<u64>) -> Value {
+    json!({
+        "zero_prefix": zp,
+        "hint": hint,
+        "chunks": chunks.iter().map(|c| json!({"word": hex(&c.word), "count": c.count, "form": form_name(c.form)})).collect::<Vec<_>>(),
+    })
+}
+
+pub fn start_generator(zp: u64) -> Generator {
+    if zp == 0 {
+        Generator::new()
+    } else {
+        Generator::verif_new_with_prefix_zeroes(zp)
+    }
+}
+
+/// From-scratch execution of one case with a plain loop (used by replay).
+pub fn run_case(c: &Value) -> Result<(), String> {
+    let zp = c["zero_prefix"].as_u64().ok_or("zero_prefix")?;
+    let hint = c["hint"].as_u64();
+    let mut g = start_generator(zp);
+    let mut r = Ctph::new(zp);
+    let mut hint = hint;
+    if let Some(h) = hint {
+        let before = format!("{:?}", g);
+        match guarded(|| g.set_fixed_input_size(h)).map_err(|p| format!("panic in set_fixed_input_size: {}", p))? {
+            Ok(()) => {
+                if h > refmodel::MAX_INPUT_SIZE {
+                    return Err(format!("declared size {} above the limit was accepted", h));
+                }
+            }
+            Err(e) => {
+                if h <= refmodel::MAX_INPUT_SIZE || e != ssdeep::GeneratorError::FixedSizeTooLarge {
+                    return Err(format!("declared size {} refused with {:?}", h, e));
+                }
+                if format!("{:?}", g) != before {
+                    return Err(format!("refused declaration {} changed the generator", h));
+                }
+                hint = None; // refused: the generator must behave as if nothing was declared
+            }
+        }
+    }
+    let chunks = c["chunks"].as_array().ok_or("chunks")?;
+    let total: u64 = zp
+        + chunks
+            .iter()
+            .map(|ch| {
+                ch["skip_zeros"].as_u64().unwrap_or(0)
+                    + (ch["word"].as_str().unwrap_or("").len() / 2) as u64 * ch["count"].as_u64().unwrap_or(0)
+            })
+            .sum::<u64>();
+    for ch in chunks {
+        if let Some(n) = ch["skip_zeros"].as_u64() {
+            // in-place zero skip (hook H1); only valid when the last 7 bytes were zero
+            if r.roll_value() != 0 {
+                return Err("bad case: skip_zeros with a non-zero window".into());
+            }
+            guarded(|| g.verif_feed_zero_bytes(n)).map_err(|p| format!("panic in hook: {}", p))?;
+            r.skip_zeros(n);
+            continue;
+        }
+        let word = unhex(ch["word"].as_str().ok_or("word")?);
+        let count = ch["count"].as_u64().ok_or("count")? as usize;
+        let form = form_from(ch["form"].as_str().ok_or("form")?).ok_or("form name")?;
+        for i in 0..count {
+            guarded(|| feed(&mut g, &word, form)).map_err(|p| format!("panic in update: {}", p))?;
+            r.feed_all(&word);
+            // with a hint, intermediate finalisations legitimately fail; compare at the end only
+            if hint.is_none() || r.size() == total {
+                if let Some(m) = mismatch_hint(&g, &r, hint) {
+                    return Err(format!("after {} x{} ({}): {}", hex(&word[..word.len().min(16)]), i + 1, form_name(form), m));
+                }
+            }
+        }
+    }
+    Ok(())
+}
+
+/// Like `mismatch`, but with a declared size equal to the final size the
+/// small-input warning is based on the declared size (same value at the end).
+pub fn mismatch_hint(g: &Generator, r: &Ctph, _hint: Option<u64>) -> Option<String> {
+    mismatch(g, r)
+}
+
+pub fn replay(c: &Value) -> Result<(), String> {
+    run_case(c)
+}
+
+fn sig(section: &str, zp: u64, chunks: &[Chunk], names: &dyn Fn(&[u8]) -> String) -> String {
+    let mut s = format!("{} zp={}", section, zp);
+    for c in chunks {
+        s.push_str(&format!(" {}^{}", names(&c.word), c.count));
+    }
+    s
+}
+
+struct Env {
+    alpha: Vec<(String, Vec<u8>)>,
+}
+impl Env {
+    fn name(&self, w: &[u8]) -> String {
+        self.alpha.iter().find(|(_, x)| x == w).map(|(n, _)| n.clone()).unwrap_or_else(|| format!("[{}B]", w.len()))
+    }
+}
+
+/// Feed the concatenation of `chunks` as ONE slice into a fresh generator.
+fn one_slice_check(env: &Env, section: &str, zp: u64, chunks: &[Chunk], r: &Ctph, acc: &mut Acc) {
+    let mut whole = vec![];
+    for c in chunks {
+        for _ in 0..c.count {
+            whole.extend_from_slice(&c.word);
+        }
+    }
+    let mut g = start_generator(zp);
+    acc.evaluations += 1;
+    let res = guarded(|| {
+        g.update(&whole);
+    });
+    let bad = match res {
+        Err(p) => Some(format!("panic: {}", p)),
+        Ok(()) => mismatch(&g, r),
+    };
+    if let Some(m) = bad {
+        let one = vec![Chunk { word: whole, count: 1, form: Form::Slice }];
+        acc.violation(
+            format!("{} one-slice", sig(section, zp, chunks, &|w| env.name(w))),
+            m,
+            case_json(zp, &one, None),
+        );
+    }
+    // zero prefix 0: the one-shot buffer function must agree as well
+    if zp == 0 {
+        let whole = &one_slice_bytes(chunks);
+        acc.evaluations += 1;
+        let exp = expected(r);
+        match guarded(|| ssdeep::hash_buf(whole)) {
+            Err(p) => acc.violation(
+                format!("{} hash_buf", sig(section, zp, chunks, &|w| env.name(w))),
+                format!("panic: {}", p),
+                json!({"hash_buf": hex(whole)}),
+            ),
+            Ok(res) => {
+                let got = res.map(|h| h.to_string()).unwrap_or_else(|e| format!("Err({:?})", e));
+                if got != exp.fin {
+                    acc.violation(
+                        format!("{} hash_buf", sig(section, zp, chunks, &|w| env.name(w))),
+                        format!("hash_buf gives {} expected {}", got, exp.fin),
+                        json!({"hash_buf": hex(whole)}),
+                    );
+                }
+            }
+        }
+    }
+}
+
+fn one_slice_bytes(chunks: &[Chunk]) -> Vec<u8> {
+    let mut whole = vec![];
+    for c in chunks {
+        for _ in 0..c.count {
+            whole.extend_from_slice(&c.word);
+        }
+    }
+    whole
+}
+
+fn note_state(g: &Generator, r: &Ctph, acc: &mut Acc) {
+    if let Ok(d) = r.digest() {
+        acc.max("max_block_index_in_result", d.log as u64);
+        acc.bump(&format!("log={:02}", d.log));
+        if d.bh2_long.len() > 32 {
+            acc.count("results_with_bh2_longer_than_32", 1);
+        }
+        if d.bh1.len() == 64 {
+            acc.count("results_with_full_bh1", 1);
+        }
+    } else {
+        acc.bump("too_large");
+    }
+    if let Some(s) = debug_field(g, "bhidx_start") {
+        acc.max("max_bhidx_start(eliminations)", s);
+    }
+    if let Some(e) = debug_field(g, "bhidx_end") {
+        acc.max("max_bhidx_end(forks)", e);
+    }
+    if debug_flag(g, "is_last") == Some(true) {
+        acc.count("states_with_last_piece_hash_active", 1);
+    }
+}
+
+/// Lock-step step: feed `word` once through `form` into both; compare.
+#[inline]
+fn step(
+    g: &mut Generator,
+    r: &mut Ctph,
+    word: &[u8],
+    form: Form,
+    acc: &mut Acc,
+) -> Option<String> {
+    let res = guarded(|| feed(g, word, form));
+    r.feed_all(word);
+    acc.evaluations += 1;
+    acc.nontrivial += 1;
+    acc.count("byte_steps", word.len() as u64);
+    match res {
+        Err(p) => Some(format!("panic in update: {}", p)),
+        Ok(()) => mismatch(g, r),
+    }
+}
+
+pub fn run(ctx: &Ctx) -> Report {
+    let mut rep = Report::new("model_checking");
+    let env = Env { alpha: corpus::gen_alphabet() };
+    let alpha = &env.alpha;
+    let na = alpha.len();
+    let thorough = ctx.tier == Tier::Thorough;
+
+    // hook validation (machinery; exit 6 on failure): hook(0) is new(), and the inductive step
+    if let Err(e) = validate_hook(ctx) {
+        eprintln!("mc: hook validation failed (machinery error, not a verdict): {}", e);
+        std::process::exit(6);
+    }
+
+    // ------------------------------------------------------------ S1: all sequences of length <= 3
+    let prefixes_s1: Vec<u64> = if thorough {
+        vec![0, 1, 6, 7, 13, 15, 16, 111, 112, 5000, (192u64 << 5) - 10, (192u64 << 30) - 14]
+    } else {
+        vec![0, 1, 7, 16, 113, (192u64 << 30) - 14]
+    };
+    let acc = par_shards(prefixes_s1.len() * na, |i, acc| {
+        let zp = prefixes_s1[i / na];
+        let a0 = i % na;
+        let mut path: Vec<Chunk> = vec![];
+        fn rec(
+            env: &Env,
+            zp: u64,
+            g: &Generator,
+            r: &Ctph,
+            depth: usize,
+            sym: usize,
+            path: &mut Vec<Chunk>,
+            acc: &mut Acc,
+        ) {
+            let word = &env.alpha[sym].1;
+            let form = FORMS[(depth + sym) % FORMS.len()];
+            let mut g2 = g.clone();
+            let mut r2 = r.clone();
+            path.push(Chunk { word: word.clone(), count: 1, form });
+            if let Some(m) = step(&mut g2, &mut r2, word, form, acc) {
+                acc.violation(sig("S1", zp, path, &|w| env.name(w)), m, case_json(zp, path, None));
+            } else {
+                one_slice_check(env, "S1", zp, path, &r2, acc);
+                if depth + 1 < 3 {
+                    for s in 0..env.alpha.len() {
+                        rec(env, zp, &g2, &r2, depth + 1, s, path, acc);
+                    }
+                } else if sym == 0 {
+                    acc.sample(case_json(zp, path, None));
+                }
+            }
+            path.pop();
+        }
+        let g = start_generator(zp);
+        let r = Ctph::new(zp);
+        rec(&env, zp, &g, &r, 0, a0, &mut path, acc);
+    });
+    acc.into_report(&mut rep, "S1_all_sequences_len_le_3");
+
+    // ------------------------------------------------------------ S2: run-structured sequences
+    let counts: [usize; 9] = [1, 2, 31, 32, 33, 63, 64, 65, 66];
+    let counts3: Vec<usize> = if thorough { counts.to_vec() } else { vec![1, 32, 65] };
+    let mut prefixes_s2: Vec<u64> = vec![0];
+    for &(n, back) in &[(5u32, 300u64), (12, 460), (29, 455), (30, 448), (30, 447), (30, 449)] {
+        prefixes_s2.push((192u64 << n) - back);
+    }
+    if thorough {
+        for n in [0u32, 1, 2, 3, 8, 16, 20, 24, 28] {
+            prefixes_s2.push((192u64 << n).saturating_sub(230).max(1));
+            prefixes_s2.push((192u64 << n) + 3);
+        }
+        prefixes_s2.extend([3, 11, 100]);
+    }
+    let three_segments = |zp: u64, s1: usize, s2: usize| -> bool {
+        // three segments: from new() for every pair in thorough; a strided subset in quick
+        if zp != 0 {
+            return false;
+        }
+        thorough || (s1 + 2 * s2) % 7 == 0
+    };
+    let acc = par_shards(prefixes_s2.len() * na, |i, acc| {
+        let zp = prefixes_s2[i / na];
+        let s1 = i % na;
+        if zp != 0 && !thorough && s1 % 3 != 0 {
+            return;
+        }
+        let w1 = &alpha[s1].1;
+        let f1 = FORMS[s1 % FORMS.len()];
+        let mut g = start_generator(zp);
+        let mut r = Ctph::new(zp);
+        let maxc = *counts.last().unwrap();
+        for c1 in 1..=maxc {
+            let mut path = vec![Chunk { word: w1.clone(), count: c1, form: f1 }];
+            if let Some(m) = step(&mut g, &mut r, w1, f1, acc) {
+                acc.violation(sig("S2", zp, &path, &|w| env.name(w)), m, case_json(zp, &path, None));
+                return;
+            }
+            if !counts.contains(&c1) {
+                continue;
+            }
+            one_slice_check(&env, "S2", zp, &path, &r, acc);
+            note_state(&g, &r, acc);
+            for s2 in 0..na {
+                if s2 == s1 {
+                    continue;
+                }
+                let w2 = &alpha[s2].1;
+                let f2 = FORMS[(s2 + 1) % FORMS.len()];
+                let mut g2 = g.clone();
+                let mut r2 = r.clone();
+                let mut ok = true;
+                for c2 in 1..=maxc {
+                    path.truncate(1);
+                    path.push(Chunk { word: w2.clone(), count: c2, form: f2 });
+                    if let Some(m) = step(&mut g2, &mut r2, w2, f2, acc) {
+                        acc.violation(sig("S2", zp, &path, &|w| env.name(w)), m, case_json(zp, &path, None));
+                        ok = false;
+                        break;
+                    }
+                    if !counts.contains(&c2) {
+                        continue;
+                    }
+                    one_slice_check(&env, "S2", zp, &path, &r2, acc);
+                    if c2 == 64 {
+                        note_state(&g2, &r2, acc);
+                    }
+                    if three_segments(zp, s1, s2) && counts3.contains(&c1) && counts3.contains(&c2) {
+                        for s3 in 0..na {
+                            if s3 == s2 {
+                                continue;
+                            }
+                            let w3 = &alpha[s3].1;
+                            let f3 = FORMS[(s3 + 2) % FORMS.len()];
+                            let mut g3 = g2.clone();
+                            let mut r3 = r2.clone();
+                            for c3 in 1..=*counts3.last().unwrap() {
+                                path.truncate(2);
+                                path.push(Chunk { word: w3.clone(), count: c3, form: f3 });
+                                if let Some(m) = step(&mut g3, &mut r3, w3, f3, acc) {
+                                    acc.violation(
+                                        sig("S2", zp, &path, &|w| env.name(w)),
+                                        m,
+                                        case_json(zp, &path, None),
+                                    );
+                                    break;
+                                }
+                                if counts3.contains(&c3) && (c3 == 1 || c3 >= 64) {
+                                    one_slice_check(&env, "S2", zp, &path, &r3, acc);
+                                }
+                            }
+                            path.truncate(2);
+                        }
+                    }
+                }
+                if ok && s1 == 3 && s2 == 5 {
+                    acc.sample(case_json(zp, &path, None));
+                }
+            }
+        }
+    });
+    acc.into_report(&mut rep, "S2_run_structured_sequences");
+
+    // ------------------------------------------------------------ S3: byte strings
+    // (a) all strings of length <= L over {00, 01, FF}
+    let l3 = ctx.tier.pick(9usize, 11);
+    let b3 = [0x00u8, 0x01, 0xff];
+    let acc = par_shards(27, |i, acc| {
+        let first = [b3[i / 9], b3[(i / 3) % 3], b3[i % 3]];
+        let mut g = Generator::new();
+        let mut r = Ctph::new(0);
+        let mut bytes: Vec<u8> = vec![];
+        // the three leading bytes (their prefixes are checked by shard 0..)
+        for (j, &c) in first.iter().enumerate() {
+            bytes.push(c);
+            // the leading prefixes are shared between shards: count each once
+            let first_owner = match j {
+                0 => i % 9 == 0,
+                1 => i % 3 == 0,
+                _ => true,
+            };
+            let res = step(&mut g, &mut r, &[c], Form::Byte, acc);
+            if !first_owner {
+                acc.nontrivial -= 1;
+            }
+            if let Some(m) = res {
+                let p = vec![Chunk { word: bytes.clone(), count: 1, form: Form::Byte }];
+                acc.violation(format!("S3a bytes={}", hex(&bytes)), m, case_json(0, &p, None));
+                return;
+            }
+        }
+        fn rec(g: &Generator, r: &Ctph, bytes: &mut Vec<u8>, l3: usize, b3: &[u8; 3], acc: &mut Acc) {
+            if bytes.len() >= l3 {
+                return;
+            }
+            for &c in b3 {
+                let mut g2 = g.clone();
+                let mut r2 = r.clone();
+                bytes.push(c);
+                let form = FORMS[bytes.len() % FORMS.len()];
+                if let Some(m) = step(&mut g2, &mut r2, &[c], form, acc) {
+                    let p = vec![Chunk { word: bytes.clone(), count: 1, form: Form::Byte }];
+                    acc.violation(format!("S3a bytes={}", hex(bytes)), m, case_json(0, &p, None));
+                } else {
+                    rec(&g2, &r2, bytes, l3, b3, acc);
+                }
+                bytes.pop();
+            }
+        }
+        rec(&g, &r, &mut bytes, l3, &b3, acc);
+    });
+    acc.into_report(&mut rep, "S3a_all_byte_strings_over_00_01_ff");
+    // (b) every pattern of length <= 3 over {00,01,7F,FF} and every constant byte, repeated to every length <= 1500
+    let mut patterns: Vec<Vec<u8>> = (0..=255u8).map(|b| vec![b]).collect();
+    let b4 = [0x00u8, 0x01, 0x7f, 0xff];
+    for &a in &b4 {
+        for &b in &b4 {
+            if a != b {
+                patterns.push(vec![a, b]);
+            }
+            for &c in &b4 {
+                if !(a == b && b == c) {
+                    patterns.push(vec![a, b, c]);
+                }
+            }
+        }
+    }
+    let maxlen = ctx.tier.pick(1500usize, 6000);
+    let acc = par_shards(patterns.len(), |i, acc| {
+        let p = &patterns[i];
+        let mut g = Generator::new();
+        let mut r = Ctph::new(0);
+        let form = FORMS3[i % 3];
+        for n in 0..maxlen {
+            let c = p[n % p.len()];
+            if let Some(m) = step(&mut g, &mut r, &[c], form, acc) {
+                let whole: Vec<u8> = (0..=n).map(|k| p[k % p.len()]).collect();
+                let ch = vec![Chunk { word: whole, count: 1, form }];
+                acc.violation(format!("S3b pattern={} len={}", hex(p), n + 1), m, case_json(0, &ch, None));
+                return;
+            }
+        }
+        // the whole string as one slice + hash_buf
+        let whole: Vec<u8> = (0..maxlen).map(|k| p[k % p.len()]).collect();
+        let ch = vec![Chunk { word: whole, count: 1, form: Form::Slice }];
+        one_slice_check(&env, "S3b", 0, &ch, &r, acc);
+        note_state(&g, &r, acc);
+        if i == 255 {
+            acc.sample(json!({"pattern": hex(p), "repeated_to_every_length_up_to": maxlen}));
+        }
+    });
+    acc.into_report(&mut rep, "S3b_periodic_and_constant_strings_every_length");
+
+    // ------------------------------------------------------------ S4 (supplementary, seeded; outside the exhaustive claim)
+    let n4 = ctx.tier.pick(4usize, 24);
+    let len4 = ctx.tier.pick(60_000usize, 200_000);
+    let acc = par_shards(n4, |i, acc| {
+        let mut lcg = Lcg(ctx.seed.wrapping_mul(977).wrapping_add(i as u64 + 1));
+        let data: Vec<u8> = match i % 4 {
+            0 => lcg.bytes(len4),
+            1 => (0..len4).map(|_| (lcg.next() >> 9) as u8 & 1).collect(),
+            2 => (0..len4).map(|_| if lcg.next() % 11 == 0 { (lcg.next() >> 8) as u8 } else { 0 }).collect(),
+            _ => {
+                // words from the trigger table in seeded order
+                let mut v = vec![];
+                while v.len() < len4 {
+                    v.extend_from_slice(&alpha[(lcg.next() as usize >> 5) % na].1);
+                }
+                v
+            }
+        };
+        let mut g = Generator::new();
+        let mut r = Ctph::new(0);
+        let form = FORMS3[i % 3];
+        for (n, &c) in data.iter().enumerate() {
+            if let Some(m) = step(&mut g, &mut r, &[c], form, acc) {
+                let ch = vec![Chunk { word: data[..=n].to_vec(), count: 1, form }];
+                acc.violation(format!("S4 stream={} len={}", i, n + 1), m, case_json(0, &ch, None));
+                return;
+            }
+        }
+        let ch = vec![Chunk { word: data.clone(), count: 1, form: Form::Slice }];
+        one_slice_check(&env, "S4", 0, &ch, &r, acc);
+        note_state(&g, &r, acc);
+    });
+    acc.into_report(&mut rep, "S4_seeded_streams_every_prefix(supplementary)");
+
+    rep.set("exhaustive", true);
+    rep.set("exhaustive_scope", "S1, S2, S3 are enumerated completely within the stated bounds; S4 is supplementary (seeded) and outside the exhaustive claim");
+    rep.set(
+        "rule",
+        "lock-step enumeration: alphabet = 31 trigger words W0..W30 (7 bytes; W_k ends a piece at levels 0..=k), Z (7 zero bytes), U (roll = 0xFFFFFFFF), F (filler), bytes 00 and 01; S1 = all sequences of length <=3 from new() and zero-prefix starts; S2 = sym1^c1 sym2^c2 [sym3^c3] with every count 1..66 on the way (one-slice re-feed at counts {1,2,31,32,33,63,64,65,66}); S3 = all byte strings over {00,01,FF} up to the tier length, every constant byte and short pattern repeated to every length; forms rotate over update/update_by_iter/update_by_byte/+=slice/+=byte; every step compares finalize, finalize_without_truncation, finalize_raw::<false,64,32>, input_size and the small-size warning with the declarative reference. A case = one prefix; all are distinct by construction; non-trivial = at least one byte fed.",
+    );
+    rep.assume("refmodel::ctph is ssdeep 2.14.1 (bound to 472 libfuzzy vectors and two multi-GiB libfuzzy vectors by the self-test on every run)");
+    rep.assume("zero-prefix starts use hook H1 (validated against really feeding zeros at the start of this run)");
+    rep
+}
+
+/// H1 validation (part of the machinery): hook(0) renders like new(); the
+/// inductive step `step(hook(N), 0) == hook(N+1)`; hook(N) == really feeding N zeros.
+pub fn validate_hook(ctx: &Ctx) -> Result<(), String> {
+    let d = |g: &Generator| format!("{:?}", g);
+    if d(&Generator::verif_new_with_prefix_zeroes(0)) != d(&Generator::new()) {
+        return Err("hook(0) != new()".into());
+    }
+    let mut real = Generator::new();
+    let limit = ctx.tier.pick(4096u64, 1 << 16);
+    for n in 0..limit {
+        let h = Generator::verif_new_with_prefix_zeroes(n);
+        if d(&h) != d(&real) {
+            return Err(format!("hook({}) differs from feeding {} zero bytes", n, n));
+        }
+        let mut h2 = h.clone();
+        h2.update_by_byte(0);
+        if d(&h2) != d(&Generator::verif_new_with_prefix_zeroes(n + 1)) {
+            return Err(format!("step(hook({}), 0) != hook({})", n, n + 1));
+        }
+        real.update_by_byte(0);
+    }
+    for n in 0..=30u32 {
+        for delta in [-2i64, -1, 0, 1, 2] {
+            let base = ((192u64 << n) as i64 + delta) as u64;
+            let mut h = Generator::verif_new_with_prefix_zeroes(base);
+            h.update(&[0]);
+            if d(&h) != d(&Generator::verif_new_with_prefix_zeroes(base + 1)) {
+                return Err(format!("inductive step fails at {}", base));
+            }
+            // in-place form: skip(a) then skip(b) == hook(a+b), from a zero-window state
+            let mut s = Generator::verif_new_with_prefix_zeroes(3);
+            s.verif_feed_zero_bytes(base - 3);
+            if d(&s) != d(&Generator::verif_new_with_prefix_zeroes(base)) {
+                return Err(format!("in-place skip to {} differs from hook", base));
+            }
+        }
+    }
+    Ok(())
+}
